@@ -29,11 +29,8 @@ META = {
                'body box excludes the rhs (or integer body, fractional rhs), to 1 only when body box = {rhs}; conditional comparisons: '
                'rounding the rhs keeps the truth value for every integral body value; result boxes of Exp/Sin/Cos/Tanh/Asin/Acos/Atan/'
                'Cosh/Acosh contain the range constants of the functions (as doubles)',
-    'not_decided': 'ComputeBoundsAndType for linear/quadratic terms, ProductBounds, Div, Pow (monotonicity of IEEE multiplication / '
-                   'division / pow is beyond every installed back end), the And/Or argument filtering (vector rebuild), NarrowVarBounds '
-                   'propagation from root constraints, lin_approx.h; the body box used by FixEqualityResult is assumed sound',
-    'not_under_contract': ['BoundComputations::ComputeBoundsAndType(LinTerms/QuadTerms)', 'ProductBounds', 'PreprocessConstraint(Div/Pow/LFC/QFC)',
-                           'ConstraintPreprocessors::IntegrateNested', 'FlatConverter::NarrowVarBounds', 'BasicFCC::AddResultVariable'],
+    'not_decided': 'the arithmetic itself: products and sums of ComputeBoundsAndType, that the hull of the corner products / quotients contains every value (monotonicity of IEEE multiplication / division / pow), what pow returns; the And/Or argument filtering (vector rebuild), NarrowVarBounds of root constraints, lin_approx.h, PLConstraint preprocessing; the body box used by FixEqualityResult is assumed sound',
+    'not_under_contract': ['PreprocessConstraint(LinearFunctionalConstraint / QuadraticFunctionalConstraint) (two calls of proved functions)', 'ConstraintPreprocessors::IntegrateNested', 'FlatConverter::NarrowVarBounds', 'BasicFCC::AddResultVariable', 'PLConstraint / lin_approx'],
     'assumptions': ['constraint arguments are valid variable indices (assumed at every access)', 'bounds are not NaN and lb <= ub',
                     'prepro / model handle objects rendered as free functions over ghost records'],
     'trusted_base': ['CBMC models of fabs / floor / ceil / fmin / fmax'],
@@ -428,7 +425,7 @@ def replay(lead, inputs, obs):
     import subprocess
     from vp import native
     text = ''
-    for src in ('c06_minmax_replay.cc', 'c06_cmp_replay.cc', 'c06_div_replay.cc', 'c06_pi_replay.cc'):
+    for src in ('c06_minmax_replay.cc', 'c06_cmp_replay.cc', 'c06_div_replay.cc', 'c06_pi_replay.cc', 'c06_pow_replay.cc', 'c06_square_replay.cc', 'c06_prop_replay.cc'):
         if src not in _drv:
             try:
                 _drv[src] = native.build_driver(src, src[:-3], native.MP_SOURCES, ['-O0'])[0]
@@ -445,11 +442,14 @@ def replay(lead, inputs, obs):
 
 
 def harnesses(tier, seed):
-    from specs import C06_bounds
+    from specs import C06_bounds, C06_prop
     hs = _harnesses(tier, seed)
     for h in hs:
         h.replay = replay
-    return hs + C06_bounds.harnesses()
+    extra = C06_bounds.harnesses() + C06_prop.harnesses()
+    for h in extra:
+        h.replay = replay
+    return hs + extra
 
 
 def h_div():
